@@ -18,7 +18,7 @@ import time
 VERIF = os.path.dirname(os.path.dirname(os.path.abspath(__file__)))
 REPO = os.environ.get("TEOS_REPO", "/repo")
 SCRATCH = os.path.join(VERIF, ".cache", "scratch")
-DIRS = [os.path.join(VERIF, "seeded"), os.path.join(VERIF, "selftest")]
+DIRS = [os.path.join(VERIF, "seeded"), os.path.join(VERIF, "selftest"), os.path.join(VERIF, "benign")]
 
 
 def cases():
@@ -48,6 +48,24 @@ def run_case(name, path, meta, keep=False, only_property=None):
             shutil.rmtree(sc, ignore_errors=True)
         return {"case": name, "ok": False, "reason": "patch does not apply to the current tree: " + r.stdout[-300:], "seconds": round(time.time() - t0, 1)}
     env = dict(os.environ, TEOS_REPO=repo, VERIF_FACTS_CACHE=os.path.join(sc, "facts"), VERIF_OUT_DIR=os.path.join(sc, "out"))
+    if meta.get("expect_silent"):
+        props = [only_property] if only_property else ["all"]
+        res = {"case": name, "ok": True, "missed": [], "hit": [], "props": props}
+        for p in props:
+            r = subprocess.run([os.path.join(VERIF, "check"), p, "--tier", "quick"], cwd=VERIF, env=env, stdout=subprocess.PIPE, stderr=subprocess.STDOUT, text=True)
+            if "fact extraction failed" in r.stdout:
+                res["ok"] = False
+                res["reason"] = "benign variant does not compile: " + r.stdout[-300:]
+            alarms = [l for l in r.stdout.splitlines() if l.startswith("  [")]
+            if alarms or r.returncode != 0:
+                res["ok"] = False
+                res["missed"] = ["FALSE ALARM: " + a[:160] for a in alarms[:6]]
+            else:
+                res["hit"].append("%s silent" % p)
+        res["seconds"] = round(time.time() - t0, 1)
+        if not keep:
+            shutil.rmtree(sc, ignore_errors=True)
+        return res
     expects = [e for e in meta.get("expect", []) if only_property in (None, e["property"])]
     props = sorted({e["property"] for e in expects})
     res = {"case": name, "ok": True, "missed": [], "hit": [], "props": props}
@@ -78,7 +96,7 @@ def run(only_property=None, names=None, keep=False):
     for name, (path, meta) in allc.items():
         if names and name not in names:
             continue
-        if only_property and not any(e["property"] == only_property for e in meta.get("expect", [])):
+        if only_property and not meta.get("expect_silent") and not any(e["property"] == only_property for e in meta.get("expect", [])):
             continue
         results.append(run_case(name, path, meta, keep, only_property))
     return results
@@ -94,7 +112,7 @@ if __name__ == "__main__":
     rs = run(prop, names or None, keep)
     bad = 0
     for r in rs:
-        print("%-40s %s  %ss  hit=%s%s" % (r["case"], "DETECTED" if r["ok"] else "MISSED", r["seconds"], r.get("hit"), ("  missed=%s %s" % (r.get("missed"), r.get("reason", ""))) if not r["ok"] else ""))
+        print("%-40s %s  %ss  hit=%s%s" % (r["case"], ("SILENT" if "silent" in str(r.get("hit")) else "DETECTED") if r["ok"] else ("FALSE-ALARM" if "FALSE ALARM" in str(r.get("missed")) else "MISSED"), r["seconds"], r.get("hit"), ("  missed=%s %s" % (r.get("missed"), r.get("reason", ""))) if not r["ok"] else ""))
         bad += 0 if r["ok"] else 1
     print("%d cases, %d missed" % (len(rs), bad))
     sys.exit(1 if bad else 0)
